@@ -955,6 +955,10 @@ def check(ctx: Ctx):
                     ctx.analysed(fi)
         check_coeff(ctx, cname)
         check_dim(ctx, cname)
+        from .c03 import check_guard
+
+        for member in ("interface_distance", "interface_curvature", "surface_area"):
+            check_guard(ctx, cname, member)
         check_unitvec(ctx, cname)
     check_complete(ctx)
     check_deriv_2d(ctx)
@@ -967,6 +971,7 @@ def check(ctx: Ctx):
     ctx.expect("TRIANG", 2)
     ctx.expect("ACCUM", 7)
     ctx.expect("ORIGIN", 8)
+    ctx.expect("GUARD", 7)
     ctx.expect("COEFF", 13)
     ctx.expect("DIM", 12)
     ctx.expect("COMPLETE", 9)
